@@ -87,6 +87,7 @@ func c13Run(c c13Case) []mc.Finding {
 	kit.Field(parent, "puid", "metadata", "uid")
 	kit.Field(parent, kit.M{"matchLabels": kit.M{"app": "x"}}, "spec", "selector")
 	kit.Field(parent, "1", "spec", "template", "v")
+	kit.Field(parent, kit.M{"app": "x"}, "spec", "template", "metadata", "labels")
 	if c.Cfg.Mode == 3 {
 		kit.Finalizers(parent, "metacontroller.io/compositecontroller-cc")
 	}
